@@ -12,7 +12,7 @@
    implementation result.  Not proved: the same for diff and exposure outputs and for dot (parse-back in the
    check); encoding/json and encoding/csv are modelled on the alphabet the analysis produces. *)
 From Coq Require Import List ZArith Bool String Permutation.
-From NP Require Import IntervalSet ConnSet ConnSetProofs World Build Connlist Diff Format SortGeneric FormatProofs DotProofs StrInj ConnInj RowInj
+From NP Require Import IntervalSet ConnSet ConnSetProofs World Build Connlist Diff Format SortGeneric FormatProofs DotProofs XFormat XFormatProofs StrInj ConnInj RowInj
      Eval EvalProofs PartitionTiles ModelPrintable.
 Import ListNotations.
 
@@ -43,6 +43,13 @@ Theorem C09_dot_edges_are_exactly_the_entries es :
   Permutation (strsort (map (fun e => dot_edge_line (row_of e)) es)) (map (fun e => dot_edge_line (row_of e)) es).
 Proof. exact (list_dot_edges_are_the_entries es). Qed.
 Print Assumptions C09_dot_edges_are_exactly_the_entries.
+
+(* list --exposure, txt (byte-exact model Model/XFormat.v): the lines of each section are exactly the exposure entries, the
+   IP connections of the exposed workloads and the unprotected directions, each once *)
+Theorem C09_exposure_lines_are_exactly_the_entries es xps ingress :
+  Permutation (rowsort (flat_map (xgress_rows es ingress) xps)) (flat_map (xgress_rows es ingress) xps).
+Proof. exact (exposure_rows_are_the_entries es xps ingress). Qed.
+Print Assumptions C09_exposure_lines_are_exactly_the_entries.
 
 (* ---- the rendering is injective ---- *)
 
